@@ -71,6 +71,7 @@ template<typename C, bool IsSeg> struct NatSeq
 	static void erase1(C& c, int64_t) { c.RemoveBack(); }
 	static Vals contents(const C& c) { Vals r; for (const E& e : c) r.push_back(e.Value()); std::sort(r.begin(), r.end()); return r; }
 	static int id(const C& c) { return mm_id(c); }
+	static size_t count(const C& c) { return c.GetCount(); }
 	static void clear(C& c) { c.Clear(); }
 	static void swap(C& a, C& b) { a.Swap(b); }
 	static C copy_with(const C& c, int id) { return C(c, MM(id)); }
@@ -89,6 +90,7 @@ template<typename C, typename El> struct NatSet
 	static void erase1(C& c, int64_t v) { c.Remove(El(v)); }
 	static Vals contents(const C& c) { Vals r; for (const El& e : c) r.push_back(e.Value()); std::sort(r.begin(), r.end()); return r; }
 	static int id(const C& c) { return c.mCrew.mData == nullptr ? -1 : mm_id(c); }
+	static size_t count(const C& c) { return c.GetCount(); }
 	static void clear(C& c) { c.Clear(); }
 	static void swap(C& a, C& b) { a.Swap(b); }
 	static C copy_with(const C& c, int id) { return C(c, MM(id)); }
@@ -123,6 +125,7 @@ template<typename C> struct NatMap
 		for (auto ref : c) { r.push_back(ref.key.Value()); if (ref.value.Value() != ref.key.Value() + 7) g_value_error = true; }
 		std::sort(r.begin(), r.end()); return r;
 	}
+	static size_t count(const C& c) { return c.GetCount(); }
 	static void clear(C& c) { c.Clear(); }
 	static void swap(C& a, C& b) { a.Swap(b); }
 	static C copy_with(const C& c, int id) { return C(c, MM(id)); }
@@ -157,6 +160,7 @@ struct AdHashMulti
 		std::sort(r.begin(), r.end()); return r;
 	}
 	static int id(const C& c) { return c.mValueCrew.mData == nullptr ? -1 : mm_id(c); }
+	static size_t count(const C& c) { return c.GetCount(); }
 	static void clear(C& c) { c.Clear(); }
 	static void swap(C& a, C& b) { a.Swap(b); }
 	static C copy_with(const C& c, int id) { return C(c, MM(id)); }
@@ -212,6 +216,7 @@ struct AdVec
 	static void erase1(C& c, int64_t) { c.pop_back(); }
 	static Vals contents(const C& c) { Vals r; for (const E& e : c) r.push_back(e.Value()); std::sort(r.begin(), r.end()); return r; }
 	static int id(const C& c) { return al_id(c.get_allocator()); }
+	static size_t count(const C& c) { return c.size(); }
 	static void clear(C& c) { c.clear(); }
 	static void swap(C& a, C& b) { a.swap(b); }
 	static C copy_with(const C& c, int id) { return C(c, mk_al<E>(id)); }
@@ -226,6 +231,7 @@ template<typename C, bool Multi> struct StdSetAd
 	static void erase_all(C& c) { while (!c.empty()) c.erase(c.begin()); }
 	static void erase1(C& c, int64_t v) { c.erase(E(v)); }
 	static Vals contents(const C& c) { Vals r; for (const E& e : c) r.push_back(e.Value()); std::sort(r.begin(), r.end()); return r; }
+	static size_t count(const C& c) { return c.size(); }
 	static void clear(C& c) { c.clear(); }
 	static void swap(C& a, C& b) { a.swap(b); }
 	static C copy_with(const C& c, int id) { return C(c, mk_al<E>(id)); }
@@ -266,6 +272,7 @@ template<typename C, bool Multi> struct StdMapAd
 		for (auto ref : c) { r.push_back(ref.first.Value()); if (ref.second.Value() != ref.first.Value() + 7) g_value_error = true; }
 		std::sort(r.begin(), r.end()); return r;
 	}
+	static size_t count(const C& c) { return c.size(); }
 	static void clear(C& c) { c.clear(); }
 	static void swap(C& a, C& b) { a.swap(b); }
 	static C copy_with(const C& c, int id) { return C(c, mk_al<PairE>(id)); }
@@ -399,6 +406,7 @@ template<typename Ad> static void run_case(const Case& cs, FILE* out)
 		Vals tc = (self || none) ? Vals() : Ad::contents(T), sc = Ad::contents(S);
 		// ---- the property's predicate on the main operation (independent of the Coq model)
 		bool iscopy = op.compare(0, 4, "copy") == 0, ismove = op.compare(0, 4, "move") == 0;
+		if (Ad::count(S) != sc.size() || (!self && !none && Ad::count(T) != tc.size())) fail("count-differs-from-iteration");
 		if (iscopy) { if (tc != s0) fail("copy-differs-from-source"); if (sc != s0) fail("copy-changed-source"); }
 		if (ismove)
 		{
@@ -414,7 +422,7 @@ template<typename Ad> static void run_case(const Case& cs, FILE* out)
 		// independence of a copy: mutate / destroy one side, re-check the other
 		std::string tie1;
 		{
-			char buf[64]; snprintf(buf, sizeof buf, " mv=%d cp=%d", dm > 0, dc > 0);
+			char buf[64]; snprintf(buf, sizeof buf, " mv=%d cp=%d", dm > 0 && !iscopy, dc > 0);   // element moves inside a fresh copy are its own business
 			tie1 = "ok T=" + idstr(tId) + " S=" + idstr(sId) + " tc=" + show(tc) + " sc=" + show(sc) + buf;
 		}
 		fputs(tie1.c_str(), out);
